@@ -93,9 +93,13 @@ class _TextCueParser:
 
     tag = token.tag.lower()
 
-    if tag.startswith("ruby"):
-      if self.ruby_rbc is not None or self.ruby_rtc is not None:
-        raise RuntimeError("Nested ruby tags are not allowed.")
+    if tag.startswith("ruby") and (self.ruby_rbc is not None or not isinstance(self.parent, model.P)):
+
+      # the model only allows ruby directly in a paragraph: handle the tag as a plain span
+
+      LOGGER.warning("Ruby tag inside another tag at line %s", self.line_num)
+
+    elif tag.startswith("ruby"):
       span = model.Ruby(self.parent.get_doc())
 
       # wrap <rb> and <rt> into <rbc> and <rtc>
@@ -108,7 +112,7 @@ class _TextCueParser:
       self.open_tags.append(tag)
       return
 
-    if tag.startswith("rt"):
+    if tag.startswith("rt") and isinstance(self.parent, model.Ruby):
       span = model.Rt(self.parent.get_doc())
       self.ruby_rtc.push_child(span)
       self.parent = span
@@ -118,7 +122,13 @@ class _TextCueParser:
     # all other tags can be handled as a span
 
     span = self._make_span(self.parent)
-    self.parent.push_child(span)
+    if isinstance(self.parent, model.Ruby):
+      # a tag inside a ruby base
+      rb = model.Rb(self.parent.get_doc())
+      rb.push_child(span)
+      self.ruby_rbc.push_child(rb)
+    else:
+      self.parent.push_child(span)
     self.parent = span
     self.open_tags.append(tag)
 
@@ -181,11 +191,13 @@ class _TextCueParser:
     if isinstance(self.parent, model.Ruby):
       self.ruby_rbc = None
       self.ruby_rtc = None
-    elif isinstance(self.parent, (model.Rt, model.Rb)):
-      # this is needed since <rb> and <rt> are nested in <rbc> and <rtc>
-      self.parent = self.parent.parent()
 
     self.parent = self.parent.parent()
+
+    # this is needed since <rb> and <rt> are nested in <rbc> and <rtc>
+
+    while isinstance(self.parent, (model.Rb, model.Rbc, model.Rtc)):
+      self.parent = self.parent.parent()
 
   def _handle_string(self, token: StringToken):
     lines = token.value.split("\n")
